@@ -104,17 +104,98 @@ Proof.
   rewrite tt_pending_sp by apply trim_quoted_nonempty. now rewrite trim_quoted.
 Qed.
 
+(* ---- a rendered quoted triple: the depth counter returns to its value ------------------------------------------------------ *)
+Lemma t_go_step2 : forall s c c2 r s1, t_step s c (Some c2) = (s1, true) -> t_go s (c :: c2 :: r) = t_go s1 r.
+Proof. intros s c c2 r s1 H. cbn [t_go hd_error]. now rewrite H. Qed.
+
+Lemma t_step_depth : forall toks cur d c pk, (0 <? d) = true -> pq c = true ->
+  t_step (TS toks cur d false false false) c pk = (TS toks (cur ++ [c]) d false false false, false).
+Proof.
+  intros toks cur d c pk Hd Hc. unfold pq in Hc. apply negb_true_iff in Hc.
+  apply orb_false_iff in Hc as [Hc _]. apply orb_false_iff in Hc as [Hc H3]. apply orb_false_iff in Hc as [H1 H2].
+  assert (Hd0 : (d =? 0) = false) by lia.
+  unfold t_step. cbn [t_esc t_lit t_uri t_dep t_cur t_toks].
+  rewrite H1, H2, H3, Hd0. cbn [negb andb orb]. rewrite !andb_false_r. cbn [andb]. reflexivity.
+Qed.
+
+Lemma t_depth_plain : forall X toks cur d rest, (0 <? d) = true -> forallb pq X = true ->
+  t_go (TS toks cur d false false false) (X ++ rest) = t_go (TS toks (cur ++ X) d false false false) rest.
+Proof.
+  induction X as [|c X IH]; intros toks cur d rest Hd H; [now rewrite app_nil_r|].
+  cbn in H. apply andb_true_iff in H as [Hc HX]. cbn [app].
+  erewrite t_go_step by (now apply t_step_depth). rewrite IH by assumption. now rewrite <- app_assoc.
+Qed.
+
+Lemma t_step_open : forall toks cur d,
+  t_step (TS toks cur d false false false) cLT (Some cLT) = (TS toks (cur ++ [cLT] ++ [cLT]) (d + 1) false false false, true).
+Proof.
+  intros. unfold t_step. cbn [t_esc t_lit t_uri t_dep t_cur t_toks peek_is].
+  replace (cLT =? cBS) with false by reflexivity. replace (cLT =? cDQ) with false by reflexivity.
+  replace (cLT =? cLT) with true by reflexivity. cbn [negb andb]. unfold t_set_dep, t_push.
+  cbn [t_esc t_lit t_uri t_dep t_cur t_toks]. now rewrite <- app_assoc.
+Qed.
+
+Lemma t_step_close : forall toks cur d,
+  t_step (TS toks cur (d + 1) false false false) cGT (Some cGT) =
+  (if d =? 0 then TS (toks ++ [trim (cur ++ [cGT] ++ [cGT])]) [] d false false false
+   else TS toks (cur ++ [cGT] ++ [cGT]) d false false false, true).
+Proof.
+  intros. unfold t_step. cbn [t_esc t_lit t_uri t_dep t_cur t_toks peek_is].
+  replace (cGT =? cBS) with false by reflexivity. replace (cGT =? cDQ) with false by reflexivity.
+  replace (cGT =? cLT) with false by reflexivity. replace (cGT =? cGT) with true by reflexivity.
+  replace (0 <? d + 1) with true by lia. cbn [negb andb].
+  unfold t_set_dep, t_push, t_emit. cbn [t_esc t_lit t_uri t_dep t_cur t_toks].
+  rewrite N.add_sub, <- app_assoc. destruct (d =? 0); reflexivity.
+Qed.
+
+Lemma t_depth_term : forall t, qsafe t = true -> forall toks cur d rest, (0 <? d) = true ->
+  t_go (TS toks cur d false false false) (qrender t ++ rest) = t_go (TS toks (cur ++ qrender t) d false false false) rest.
+Proof.
+  induction t as [s|s|ws|a IHa b IHb c IHc]; intros Hs toks cur d rest Hd.
+  1-3: apply t_depth_plain; [assumption|now apply qleaf_pq].
+  cbn [qsafe] in Hs. apply andb_true_iff in Hs as [Hs Hc]. apply andb_true_iff in Hs as [Hs _].
+  apply andb_true_iff in Hs as [Hs Hb]. apply andb_true_iff in Hs as [Ha _].
+  assert (Hd1 : (0 <? d + 1) = true) by lia. assert (Hd0 : (d =? 0) = false) by lia.
+  cbn [qrender]. unfold sLTLT, sGTGT. repeat (rewrite <- app_assoc; cbn [app]).
+  erewrite t_go_step2 by apply t_step_open.
+  erewrite t_go_step by (now apply t_step_depth). rewrite IHa by assumption.
+  erewrite t_go_step by (now apply t_step_depth). rewrite IHb by assumption.
+  erewrite t_go_step by (now apply t_step_depth). rewrite IHc by assumption.
+  erewrite t_go_step by (now apply t_step_depth).
+  erewrite t_go_step2 by apply t_step_close. rewrite Hd0.
+  f_equal. f_equal. repeat (rewrite <- app_assoc; cbn [app]). reflexivity.
+Qed.
+
+Lemma tt_qt_top : forall a b c toks rest, qsafe (QQt a b c) = true ->
+  t_go (tcs toks) (qrender (QQt a b c) ++ rest) = t_go (tcs (toks ++ [qrender (QQt a b c)])) rest.
+Proof.
+  intros a b c toks rest Hs. rewrite <- (qrender_trim a b c) at 2.
+  cbn [qsafe] in Hs. apply andb_true_iff in Hs as [Hs Hc]. apply andb_true_iff in Hs as [Hs _].
+  apply andb_true_iff in Hs as [Hs Hb]. apply andb_true_iff in Hs as [Ha _].
+  assert (Hd1 : (0 <? 0 + 1) = true) by reflexivity.
+  cbn [qrender]. unfold sLTLT, sGTGT, tcs. repeat (rewrite <- app_assoc; cbn [app]).
+  erewrite t_go_step2 by apply t_step_open.
+  erewrite t_go_step by (now apply t_step_depth). rewrite t_depth_term by assumption.
+  erewrite t_go_step by (now apply t_step_depth). rewrite t_depth_term by assumption.
+  erewrite t_go_step by (now apply t_step_depth). rewrite t_depth_term by assumption.
+  erewrite t_go_step by (now apply t_step_depth).
+  erewrite t_go_step2 by apply t_step_close. cbn [N.eqb].
+  f_equal. f_equal. f_equal. f_equal. repeat (rewrite <- app_assoc; cbn [app]). reflexivity.
+Qed.
+
 (* ---- terms and separators ------------------------------------------------------------------------------------------ *)
 Inductive tterm : str -> str -> Prop :=
 | TT_angle : forall s, forallb iri_char s = true -> tterm (angle s) s
-| TT_lit : forall v, tterm (quoted v) v.
+| TT_lit : forall v, tterm (quoted v) v
+| TT_qt : forall a b c, qsafe (QQt a b c) = true -> tterm (qrender (QQt a b c)) (qrender (QQt a b c)).
 
 Lemma tt_term_sp : forall R v toks rest, tterm R v ->
   t_go (tcs toks) (R ++ cSP :: rest) = t_go (tcs (toks ++ [R])) rest.
 Proof.
-  intros R v toks rest H. destruct H as [s H|v].
+  intros R v toks rest H. destruct H as [s H|v|a b c H].
   - rewrite tt_angle by assumption. apply tt_sp_clean.
   - apply tt_quoted_sp.
+  - rewrite tt_qt_top by assumption. apply tt_sp_clean.
 Qed.
 
 Lemma tt_comma_sp : forall toks rest, t_go (tcs toks) (cCOMMA :: cSP :: rest) = t_go (tcs (toks ++ [[cCOMMA]])) rest.
